@@ -17,7 +17,7 @@ VARIABLES s, in,
 vars == <<s, in, cur, hist, dets, nsets, ng, nstray>>
 
 NoCfg == [hr |-> FALSE, lb |-> FALSE, ns |-> FALSE]
-Rec(w, det, cf) == [start |-> FALSE, rdy |-> TRUE, hr |-> FALSE, lb |-> FALSE, ns |-> FALSE, ow |-> NoWord, done |-> FALSE,
+Rec(w, det, cf) == [start |-> FALSE, rdy |-> TRUE, hr |-> FALSE, lb |-> FALSE, ns |-> FALSE, ow |-> NoWord, done |-> FALSE, rst |-> FALSE,
                     iw |-> w, det |-> det, dhr |-> cf.hr, dlb |-> cf.lb, dsd |-> cf.ns]
 Init == /\ s = SInit /\ in = Rec(NoWord, FALSE, NoCfg) /\ cur = <<>> /\ hist = <<>> /\ dets = 0
         /\ nsets = 0 /\ ng = 0 /\ nstray = 0
